@@ -476,14 +476,8 @@ def supporting_fact(ctx, name):
         # extern types' align attribute, and the pointer size (before any type is built); built-ins are max(size, 1)
         g15 = [o for o in ctx.obs if o.key.endswith('G15|alignment-power-of-two')]
         ok15 = bool(g15) and all(o.ok for o in g15)
-        am = [f for f in P.fns.values() if f.id.endswith('SemanticState::add_module')]
-        okx = False
-        if am:
-            from guards import guards_of
-            for h_ in method_family(P, am[0], exclude=('SemanticState::add_item',)):
-                for g_ in guards_of(h_):
-                    if g_.kind == 'reject' and any(isinstance(x, tuple) and x[0] == 'call' and x[1].endswith('::is_power_of_two') for x in walk(g_.pred)):
-                        okx = True
+        g18 = [o for o in ctx.obs if o.key.endswith('G18|extern-align-power-of-two')]
+        okx = bool(g18) and all(o.ok for o in g18)
         sb = [f for f in P.fns.values() if f.id.endswith('SemanticState::build')]
         okp = False
         if sb:
